@@ -201,8 +201,10 @@ class Ref:
                 return out
             if op == "wait":
                 fid = st[1] % len(self.futs) if self.futs else None
-                if fid is None or fid in self.waited:
-                    continue
+                if fid is None or (fid in self.waited and not self.futs[fid].resolved):
+                    continue            # one parked process per future; yielding a future that is already resolved is always allowed
+                if fid in self.waited:
+                    self.features.add("resolved-future-yielded-again")
                 self.waited.add(fid)
                 if ps["owner"]["hooks"]:
                     self.features.add("parked-with-hooks")
